@@ -316,6 +316,8 @@ def linop_obligations(L, props, with_normal=True):
     y = SArr.input("y", osh)
     k = [z3.Int("k%d" % d) for d in range(len(osh))]
     t = [z3.Int("t%d" % d) for d in range(len(ish))]
+    if "C02" in props:
+        x._protected = "input"          # any write into x (also through a view the operator obtained from it) fails an obligation
     fx = L.apply(x)
     bk, bt = box(k, osh), box(t, ish)
     shape_ok = len(fx.shape) == len(osh)
@@ -327,6 +329,25 @@ def linop_obligations(L, props, with_normal=True):
     if "C02" in props:
         obs.append(("C02:apply-is-a-homogeneous-C-linear-form", [], z3.And(z3.BoolVal(not any(tm.conj for tm in fk.terms if tm.atom == "x")),
                                                                         fk.const.re == 0, fk.const.im == 0)))
+    if "C02" in props:
+        # the same linear map for an input of real dtype (a real array is a complex array with zero imaginary part): code that
+        # branches on input.dtype must not change what the operator does to those values
+        xr = SArr.input("x", ish, dtype=snp.FDT)
+        try:
+            fr = L.apply(xr)
+            if len(fr.shape) == len(osh):
+                frk = fr.elem(tuple(k))
+                tt = tuple(z3.Int("tr!%d" % d) for d in range(len(ish)))
+                tot = {}
+                for nm_, lf_ in (("real", frk), ("complex", fk)):
+                    c1, l1 = coef_of(lf_, "x", tt, False)
+                    c2, l2 = coef_of(lf_, "x", tt, True)
+                    tot[nm_] = (c1 + c2, [q for q in l1 if not q.conj] + [q for q in l2 if q.conj])
+                if not tot["real"][1] and not tot["complex"][1]:
+                    a_, b_ = tot["real"][0], tot["complex"][0]
+                    obs.append(("C02:real-dtype-input-gives-the-same-map(on real values)", bk + box(tt, ish), z3.And(a_.re == b_.re, a_.im == b_.im)))
+        except (snp.ModelledError, ValueError, RuntimeError, snp.NonLinear):
+            obs.append(("C02:real-dtype-input-is-accepted", [], z3.BoolVal(False)))
     if "C02" in props or "C03" in props:
         for (atom, cj), rank in snp.lf_atoms(fk).items():
             if atom.startswith("uninit!"):
@@ -542,6 +563,13 @@ def build(lin, cls, v):
         shapes = [_shape("d%d_" % j, 1) for j in range(k + 1)]
         return lin.Compose([G("A%d" % j, shapes[j], shapes[j + 1]) for j in range(k)])
     if cls == "Add":
+        if v.get("views"):
+            # summands that return VIEWS of their input (Reshape / Transpose): accumulating in place would write into the input
+            n = _shape("n", 2)
+            if v["views"] == "reshape":
+                R = lin.Reshape([snp.prod(n)], n)
+                return lin.Add([R, _cplx("a") * R])
+            return lin.Add([lin.Transpose(n, axes=(1, 0)), G("A0", [n[1], n[0]], n)])
         o, i = _shape("o", r), _shape("i", r)
         return lin.Add([G("A%d" % j, o, i) for j in range(v["k"])])
     if cls in ("Hstack", "Vstack", "Diag"):
@@ -694,6 +722,8 @@ def variants(tier):
     for k in (1, 2, 3):
         add("Compose", k=k)
         add("Add", k=k, rank=1)
+    add("Add", k=2, rank=2, views="reshape")
+    add("Add", k=2, rank=2, views="transpose")
     for cls in ("Hstack", "Vstack", "Diag"):
         for k in (1, 2, 3):
             if cls == "Diag" and k == 3 and not T:
